@@ -5,6 +5,7 @@ import (
 	"encoding/json"
 	"fmt"
 	"io"
+	"math/rand"
 	"runtime"
 	"time"
 
@@ -29,6 +30,25 @@ type c16Input struct {
 	Schedule   []int `json:"schedule"` // a schedule for the model (worker ids), long enough to finish
 	EffWorkers int   `json:"effectiveWorkers"`
 	BlockRows  []int `json:"blockRows"`
+	// StoreDelayUs: every write to the object store takes this long (microseconds; 0 = the in-memory
+	// store at full speed). With a slow store the consumers of the sorted-block channel fall behind
+	// the producer, so the channel's buffer is full for most of the run and the producer blocks in its
+	// sends: the schedules in which every block, the last one included, has to wait for room.
+	StoreDelayUs int `json:"storeDelayUs,omitempty"`
+	// RunSize: the sorter's run size in bytes (0 = everything in memory, one run); small values make
+	// the sorter spill sorted chunks to disk and merge them while producing blocks
+	RunSize uint64 `json:"runSize,omitempty"`
+}
+
+// c16SlowStore is an object store whose writes take a fixed time (a disk- or network-backed store).
+type c16SlowStore struct {
+	objects.Store
+	delay time.Duration
+}
+
+func (s *c16SlowStore) Set(k, v []byte) error {
+	time.Sleep(s.delay)
+	return s.Store.Set(k, v)
 }
 
 func c16Table(n int) *TableSpec {
@@ -39,12 +59,20 @@ func c16Table(n int) *TableSpec {
 	return t
 }
 
-func c16Ingest(csv []byte, workers int, db objects.Store) ([]byte, error) {
-	s, err := sorter.NewSorter(sorter.WithRunSize(1 << 30))
+func c16Ingest(csv []byte, workers int, db objects.Store, runSize uint64) ([]byte, error) {
+	if runSize == 0 {
+		runSize = 1 << 30
+	}
+	s, err := sorter.NewSorter(sorter.WithRunSize(runSize))
 	if err != nil {
 		return nil, err
 	}
-	return ingest.IngestTable(db, s, io.NopCloser(bytes.NewReader(csv)), []string{"k"}, logr.Discard(), ingest.WithNumWorkers(workers))
+	sum, err := ingest.IngestTable(db, s, io.NopCloser(bytes.NewReader(csv)), []string{"k"}, logr.Discard(), ingest.WithNumWorkers(workers))
+	if err == nil {
+		// the producer goroutine is done (the workers saw its channel closed): the spill files can go
+		s.Close()
+	}
+	return sum, err
 }
 
 func c16Run(in *c16Input) Res {
@@ -55,7 +83,7 @@ func c16Run(in *c16Input) Res {
 		// reference: one worker, no yields
 		verifhook.SetSeed(0)
 		ref := NewMemStore()
-		sum1, err := c16Ingest(csv, 1, ref)
+		sum1, err := c16Ingest(csv, 1, ref, 0)
 		if err != nil {
 			return Err("reference-ingest")
 		}
@@ -69,7 +97,10 @@ func c16Run(in *c16Input) Res {
 			if in.FailAt >= 0 {
 				store = &faultObjStore{Store: db, b: &writeBudget{left: in.FailAt}}
 			}
-			sum, err := c16Ingest(csv, in.Workers, store)
+			if in.StoreDelayUs > 0 {
+				store = &c16SlowStore{Store: store, delay: time.Duration(in.StoreDelayUs) * time.Microsecond}
+			}
+			sum, err := c16Ingest(csv, in.Workers, store, in.RunSize)
 			if err != nil {
 				done <- Res{"res": "ok", "val": map[string]interface{}{"error": true}}
 				return
@@ -96,6 +127,75 @@ func c16Run(in *c16Input) Res {
 }
 
 func runC16(ctx *Ctx) {
+	runC16Main(ctx)
+	// on 1 case index in 6, additionally: an ingest whose consumers are slower than its producer
+	// (chosen by the case index and drawn after the case's own draws, so no other case moves)
+	if ctx.Idx%6 == 4 {
+		runC16SlowStore(ctx)
+	}
+}
+
+// c16FillModelInput derives, for nb blocks, what the model needs: the effective worker count, the
+// rows of every block and a schedule (random, then a round-robin tail that lets every worker finish).
+func c16FillModelInput(r *rand.Rand, in *c16Input, nb int) {
+	in.EffWorkers = in.Workers - 2
+	if in.EffWorkers <= 0 {
+		in.EffWorkers = 1
+	}
+	in.BlockRows = nil
+	for i := 0; i < nb-1; i++ {
+		in.BlockRows = append(in.BlockRows, 255)
+	}
+	in.BlockRows = append(in.BlockRows, in.Rows-(nb-1)*255)
+	in.Schedule = nil
+	for i := 0; i < 6*nb; i++ {
+		in.Schedule = append(in.Schedule, r.Intn(in.EffWorkers))
+	}
+	for i := 0; i < 2*nb+2; i++ {
+		for w := 0; w < in.EffWorkers; w++ {
+			in.Schedule = append(in.Schedule, w)
+		}
+	}
+}
+
+// The sorted-block channel between the sorter's producer goroutine and the ingest workers has a
+// buffer (sorter.go: 10 blocks). With the in-memory store the workers drain it as fast as it fills,
+// so the producer never finds it full. Here every store write takes 0.5..5 ms and the table has
+// more blocks than the buffer and the workers can hold together (the last block partial in 254 of
+// 255 draws), so the producer spends the run blocked in its sends and the last blocks are sent
+// into a full channel. The table must still be the single-threaded one.
+func runC16SlowStore(ctx *Ctx) {
+	r := ctx.R
+	in := &c16Input{FailAt: -1}
+	in.Workers = []int{1, 2, 3, 4, 5, 8}[r.Intn(6)]
+	eff := in.Workers - 2
+	if eff <= 0 {
+		eff = 1
+	}
+	// Workers that all wait equally long for the store take their blocks in bursts of eff, and the
+	// producer refills the buffer in bursts of eff: with buffer + k*eff + 1 blocks the last block is
+	// the one that comes after a refill, when the buffer is full again. 1 case in 3 adds 0..eff-1
+	// blocks, which puts the last block inside a burst instead.
+	const chanBuffer = 10 // sorter.go SortedBlocks: make(chan *Block, 10)
+	nb := chanBuffer + eff*(2+r.Intn(2)) + 1
+	if r.Intn(3) == 0 {
+		nb += r.Intn(eff)
+	}
+	in.Rows = (nb-1)*255 + 1 + r.Intn(255)
+	in.YieldSeed = 1 + r.Int63n(1<<40)
+	in.Procs = []int{1, 2, 4, 16}[r.Intn(4)]
+	in.StoreDelayUs = []int{500, 2000, 5000}[r.Intn(3)]
+	tags := []string{"slow-store", fmt.Sprintf("procs=%d", in.Procs)}
+	if r.Intn(3) == 0 {
+		// several sorted runs on disk, merged while the blocks are produced
+		in.RunSize = uint64(8000 + r.Intn(40000))
+		tags = append(tags, "spilled-runs")
+	}
+	c16FillModelInput(r, in, nb)
+	ctx.Emit("ingest", in, c16Run(in), true, tags...)
+}
+
+func runC16Main(ctx *Ctx) {
 	r := ctx.R
 	if r.Intn(4) == 0 {
 		runC16Merge(ctx)
